@@ -1705,3 +1705,6 @@ def replay_refuted(cname, rf):
 def replay_input(inp):
     from bounded import c16 as b
     return b.replay_input(inp)
+
+
+USES_LEAN_LEMMAS = ['L2a permutation invariance of a finite sum']      # re-checked with lean (selftest/lean_check.sh, lemmas/SmtForms.lean) in the thorough tier
